@@ -47,13 +47,13 @@ func genHosts(prop string, seed uint64, tier string) Scenario {
 	if tier == "thorough" && r.chance(1, 4) {
 		nops = 40 + r.n(60)
 	}
-	// weights: ip4 ip6 arp dhcpupd dhcpframe name adv other
-	wts := []int{30, 14, 14, 8, 6, 8, 18, 2}
+	// weights: ip4 ip6 arp dhcpupd dhcpframe name adv other hostless-mac-entry
+	wts := []int{30, 14, 14, 8, 6, 8, 18, 2, 0}
 	switch prop {
 	case "C05":
-		wts = []int{34, 10, 18, 10, 4, 2, 20, 2}
+		wts = []int{34, 10, 18, 10, 4, 2, 20, 2, 8}
 	case "C06":
-		wts = []int{26, 10, 10, 12, 10, 14, 18, 0}
+		wts = []int{26, 10, 10, 12, 10, 14, 18, 0, 0}
 	}
 	clientMAC := func() int { return world.MC1 + r.n(3+r.n(3)) }
 	anyMAC := func() int {
@@ -109,6 +109,8 @@ func genHosts(prop string, seed uint64, tier string) Scenario {
 			sc.Ops = append(sc.Ops, Op{K: "adv", D: r.weighted([]int{6, 8, 5, 5, 6, 6, 4, 3, 4, 4, 1, 1})})
 		case 7:
 			sc.Ops = append(sc.Ops, Op{K: "other", M: anyMAC(), P: r.n(3)})
+		case 8: // Capture / Release / SetDHCPv4IPOffer create MAC entries without hosts (C05 only)
+			sc.Ops = append(sc.Ops, Op{K: "macop", M: clientMAC(), P: r.n(3), I: homeIP()})
 		}
 	}
 	return sc
@@ -151,7 +153,8 @@ func advDuration(c world.Config, code int) time.Duration {
 
 type hostsRun struct {
 	*exec
-	m *model.Hosts
+	m        *model.Hosts
+	hostless bool // Capture/Release/SetDHCPv4IPOffer were used: MAC entries may exist without hosts
 }
 
 func mm(m fb.MAC) model.MAC { return model.MAC(m) }
@@ -353,6 +356,18 @@ func runHosts(e *exec) {
 			})
 			_ = target
 			continue
+		case "macop":
+			mac := world.HW(u.MACs[o.M])
+			switch o.P {
+			case 0:
+				w.S.Capture(mac)
+			case 1:
+				w.S.Release(mac)
+			default:
+				w.S.SetDHCPv4IPOffer(mac, u.IP4[o.I], packet.NameEntry{Type: "dhcp4", Name: "o"})
+			}
+			h.hostless = true
+			e.probe("hostless_mac_entry_op")
 		case "other":
 			var f []byte
 			switch o.P {
@@ -415,6 +430,10 @@ func notifOf(n packet.Notification) model.Notif {
 // checkNotifs drains Session.C and compares with the expected notifications of this step
 // (multiset equality, plus: a superseded IPv4 address's offline precedes the new one's online).
 func (h *hostsRun) checkNotifs(exp []model.Notif, what string) {
+	if h.hostless { // outside the C04/C06 model (C05-only histories): just drain
+		h.w.Drain()
+		return
+	}
 	got := h.w.Drain()
 	var g []model.Notif
 	for _, n := range got {
@@ -505,6 +524,13 @@ func hostKey(mac []byte, ip netip.Addr, online bool) string {
 // structural invariants of the tables (C05).
 func (h *hostsRun) checkState(what string) {
 	w := h.w
+	if h.hostless {
+		apiUserCheckTables(h.exec, what)
+		if h.step%5 == 0 {
+			printTable(h.exec)
+		}
+		return
+	}
 	want := h.m.Snapshot()
 	// GetHosts
 	var got []string
@@ -565,12 +591,18 @@ func (h *hostsRun) checkState(what string) {
 				return
 			}
 		}
+		if h.hostless { // the C04 model does not cover host-less MAC entries (and what survives their last host)
+			continue
+		}
 		if (w.S.FindMACEntry(world.HW(mac)) != nil) != (h.m.ByMAC[mm(mac)] != nil) {
 			h.violate("C04.macentry", what, fmt.Sprintf("FindMACEntry(%s) present=%v model=%v", mm(mac), w.S.FindMACEntry(world.HW(mac)) != nil, h.m.ByMAC[mm(mac)] != nil))
 			return
 		}
 	}
 	apiUserCheckTables(h.exec, what)
+	if h.step%5 == 0 {
+		printTable(h.exec) // PrintTable asserts part of the invariant itself and panics if it fails
+	}
 	h.addState(simrt.HashBytes([]byte(strings.Join(ws, ";"))))
 }
 
@@ -644,5 +676,3 @@ func printTable(e *exec) {
 	e.w.S.PrintTable()
 	e.probe("print_table")
 }
-
-var _ = printTable
